@@ -220,8 +220,8 @@ func (s *State) havocArrsYoung(arrs []string, T string) {
 		}
 		old := s.get(a)
 		hv := fc.q.freshConst(a+"@hv", fc.g.arrSort[a])
-		nv := fc.q.freshConst(a, fc.g.arrSort[a])
-		fc.q.assert(implies(s.reach, eq(nv, fmt.Sprintf("(lambda ((yr Ref)) (ite (> (rbase yr) %s) (select %s yr) (select %s yr)))", T, hv, old))))
+		// a definition (inlined by the solver), not an array equality: the new version is fresh, so defining it unconditionally loses no model
+		nv := fc.q.define(a, fc.g.arrSort[a], fmt.Sprintf("(lambda ((yr Ref)) (ite (> (rbase yr) %s) (select %s yr) (select %s yr)))", T, hv, old))
 		s.heap[a] = nv
 		fc.written[a] = true
 		s.bounds[a] = ""
